@@ -101,7 +101,12 @@ def eval_quat(case, ctx):
     _twin(ctx, 'conjugate', lambda: np.asarray(QA.conjugate())[i], lambda: np.asarray(q1.conjugate))
     _twin(ctx, 'conj', lambda: np.asarray(QA.conj())[i], lambda: np.asarray(q1.conj))
     _twin(ctx, 'to_DCM', lambda: np.asarray(QA.to_DCM())[i], lambda: np.asarray(q1.to_DCM()))
-    _twin(ctx, 'to_angles', lambda: np.asarray(QA.to_angles())[i], lambda: np.asarray(q1.to_angles()))
+    # Euler angles are ill-conditioned towards gimbal lock: a 1-ulp difference between the two constructors' normalisations moves
+    # each angle by ~ulp/cos(pitch), and the pitch itself by up to sqrt(2 ulp) = 2e-8 rad where |sin(pitch)| rounds to 1
+    qn = Qr[i]/np.linalg.norm(Qr[i])
+    cp = math.sqrt(max(0.0, 1.0 - min(1.0, abs(2.0*(qn[0]*qn[2] - qn[3]*qn[1])))**2))
+    _twin(ctx, 'to_angles', lambda: np.asarray(QA.to_angles())[i], lambda: np.asarray(q1.to_angles()),
+          tol=TOL + min(4e-8, 2e-15/max(cp, 1e-300)))
     _twin(ctx, 'to_array', lambda: np.asarray(QA.to_array())[i], lambda: np.asarray(q1.to_array()))
     Ang = np.array(case['angles'], dtype=float)
     _twin(ctx, 'rpy=', lambda: np.asarray(QuaternionArray(rpy=np.array(Ang)))[i], lambda: np.asarray(Quaternion(rpy=np.array(Ang[i]))))
@@ -261,8 +266,16 @@ def eval_estimators(case, ctx):
         rs, es = run(lambda: single_of(i))
         if eb is not None:
             # the batch evaluates every row: it may legitimately fail because of ANOTHER row
-            others = [run(lambda k=k: single_of(k))[1] for k in range(n)]
+            singles = [run(lambda k=k: single_of(k)) for k in range(n)]
+            others = [e_ for _, e_ in singles]
             if not any(type(o) is type(eb) for o in others if o is not None):
+                # A singular pose of a closed-form estimator (C03's open findings): the per-sample path returns something
+                # that is not an attitude (zero / non-unit quaternion, non-orthogonal matrix, NaN) where the vectorised path,
+                # which wraps all rows in one QuaternionArray, refuses the whole batch.  Both are the same singular pose.
+                if any(r_ is not None and (not _valid_attitude(row, r_) or _singular_for_scalar_path(
+                        lambda a_, m_, k=k: single_of(k, a_, m_), ACC[k], MAG[k], r_)) for k, (r_, _) in enumerate(singles)):
+                    ctx.label('singular_pose_skipped')
+                    continue
                 ctx.fail(f'{row.name}|batch_raises_but_no_row_does', f'{type(eb).__name__}: {eb}'[:200])
             continue
         if es is not None:
@@ -286,6 +299,48 @@ def eval_estimators(case, ctx):
                 judge(ctx, row.name + '|one_sample', ro, rs, lambda a_, m_: single_of(i, a_, m_), ACC[i], MAG[i])
 
 
+def _valid_attitude(row, out):
+    o = np.asarray(out)
+    if np.iscomplexobj(o) or not np.all(np.isfinite(o)):
+        return False
+    if row.out == 'q':
+        return o.shape == (4,) and abs(float(np.linalg.norm(o)) - 1.0) <= 1e-6
+    if row.out == 'R':
+        return o.shape == (3, 3) and float(np.max(np.abs(o @ o.T - np.identity(3)))) <= 1e-6
+    return o.shape == (3,)
+
+
+_PATTERNS = ([1, -1, 1, -1, 1, 1], [-1, 1, -1, 1, -1, -1], [1, 1, -1, 1, -1, 1], [-1, -1, 1, -1, 1, -1])
+
+
+def _perturbed(acc, mag):
+    """Copies of the sample: four with every component moved by 4 ulp OF THE VECTOR'S NORM (additive: a purely relative
+    perturbation leaves exact zeros exact and misses the sensitivity of poses where a component vanishes)."""
+    a, m = np.array(acc, dtype=float), np.array(mag, dtype=float)
+    na, nm = float(np.linalg.norm(a)), float(np.linalg.norm(m))
+    for pat in _PATTERNS:
+        yield a + 8e-16*na*np.array(pat[:3], dtype=float), m + 8e-16*nm*np.array(pat[3:], dtype=float)
+    # ... and three rescaled copies: every estimator of the table uses directions only, so a positive factor changes nothing but
+    # the rounding of the internal normalisation (1 ulp on a_z, which terms like (a_z - 1) near the level pose amplify without bound)
+    for sa, sm in ((3.0, 3.0), (1.0/3.0, 0.7), (0.7, 1.0/3.0)):
+        yield a*sa, m*sm
+
+
+def _singular_for_scalar_path(single_fn, acc, mag, ref):
+    """True when the per-sample path itself raises, returns non-finite numbers or moves by more than 1e-6 under a 4-ulp
+    perturbation of the sample (the same measurement judge() makes): a singular or ill-conditioned pose."""
+    for pa, pm in _perturbed(acc, mag):
+        try:
+            p = np.asarray(single_fn(pa, pm))
+        except Exception:
+            return True
+        if p.shape != np.asarray(ref).shape or not np.all(np.isfinite(np.asarray(p, dtype=complex))):
+            return True
+        if float(np.max(np.abs(np.asarray(p, dtype=complex) - np.asarray(ref, dtype=complex)))) > 1e-6:
+            return True
+    return False
+
+
 def judge(ctx, name, got, ref, single_fn, acc, mag):
     """Equality to 1e-12, sign included.  A larger difference is only excused when the scalar path itself moves by a
     comparable amount under a few-ulp perturbation of the sample (ill-conditioned / singular pose: both paths return
@@ -295,9 +350,7 @@ def judge(ctx, name, got, ref, single_fn, acc, mag):
         return
     sens = 0.0
     singular = not np.all(np.isfinite(np.asarray(ref, dtype=complex)))
-    for sgn in (1.0, -1.0):
-        pa = np.array(acc)*(1.0 + sgn*np.array([8e-16, -8e-16, 8e-16]))
-        pm = np.array(mag)*(1.0 + sgn*np.array([-8e-16, 8e-16, 8e-16]))
+    for pa, pm in _perturbed(acc, mag):
         try:
             p = np.asarray(single_fn(pa, pm))
         except Exception:
@@ -315,7 +368,7 @@ def judge(ctx, name, got, ref, single_fn, acc, mag):
     if g.shape == r.shape and np.all(np.isfinite(np.asarray(g, dtype=complex))):
         diff = float(np.max(np.abs(np.asarray(g, dtype=complex) - np.asarray(r, dtype=complex))))
         if diff <= 50.0*sens:
-            ctx.label('ill_conditioned_row_excused')
+            ctx.label('ill_conditioned_row_excused', f'ill_conditioned:{name}')
             return
     ctx.fail(f'{name}|batch_differs_from_single', (why + f' (scalar-path sensitivity to 4-ulp input noise: {sens:.2e})')[:320])
 
@@ -325,7 +378,7 @@ def selftest():
 
 
 SUBCHECKS = {
-    'quat': Sub(lambda tier: _quat_case(), eval_quat, quick=5000, thorough=300000),
+    'quat': Sub(lambda tier: _quat_case(), eval_quat, quick=4000, thorough=300000, budget_quick=70.0),
     'metrics': Sub(lambda tier: _metric_case(), eval_metrics, quick=5000, thorough=300000),
     'estimators': Sub(lambda tier: _est_case(), eval_estimators, quick=8000, thorough=400000),
 }
